@@ -46,9 +46,19 @@ ASSUME = [
     "no environment deviations (short I/O, EAGAIN, faults) are offered in this check: the schedule is the only nondeterminism",
     "the SSL_CTX cache is not primed: contexts are created and destroyed inside the explored region",
     "races inside OpenSSL/libc (no XCM frame in either stack) are not XCM's and are reported as INFO only",
+    "windows between two atomic accesses (or any two instructions) that contain no lock operation and no system call are "
+    "invisible to the enumeration: there is no scheduling point inside them (e.g. a load and a store of next_id inside "
+    "get_next_sock_id, a static function that --wrap cannot reach; a point before the wrapped xcm_tp_socket_create does not "
+    "split it) and, if every access is atomic, ThreadSanitizer is silent too; for the socket-id allocator a free-running "
+    "STRESS complement (sampling, not exhaustive) looks for lost updates: N threads released by a barrier create and close "
+    "cheap sockets and every id handed out in the run must be distinct ('socket id, unique on a per-process basis')",
 ]
 
 FULL = "SCAMGcas"
+FREE_WRAPS = ["xcm_tp_socket_create"]     # the free-running builds keep the socket-id ledger only
+
+# socket-id stress (free-running complement): (build variant, threads, sockets per round, rounds quick, rounds thorough)
+STRESS = [("plain", 8, 4, 4000, 12000), ("tsan", 8, 4, 2000, 6000), ("plain", 4, 8, 2000, 6000)]
 
 
 def two(tp0, tp1, s0=FULL, s1=FULL, extra=""):
@@ -174,7 +184,7 @@ def run_tsan_one(exe, params, reps, timeout_s):
 
 
 def run_tsan(chk, tier, jobs, deadline_s):
-    exe = build.build_harness("h_thr", ["harness/h_thr.c"], variant="tsan", wraps=[],
+    exe = build.build_harness("h_thr", ["harness/h_thr.c"], variant="tsan", wraps=FREE_WRAPS,
                               extra_defs=["-DH_THR_TSAN=1"], cares_stub=False)
     q = tier == "quick"
     todo = [(p, rq if q else rt) for p, rq, rt in TSAN_SCENARIOS]
@@ -205,6 +215,9 @@ def run_tsan(chk, tier, jobs, deadline_s):
                                           "deterministically; repeat or raise --reps"))
                 else:
                     chk.info("tsan-report-outside-xcm", sig + ": " + text[:300])
+            for m in re.finditer(r"STRESS-VIOLATION (\S+): ([^\n]*)", r["err"]):
+                chk.finding(m.group(1), m.group(2), dict(harness="h_thr.tsan", params=r["params"], build="tsan",
+                                                         replay_cmd=r["cmd"], note="free-running pass (sampling)"))
             for m in re.finditer(r"HARNESS-VIOLATION (\S+): ([^\n]*)", r["err"]):
                 chk.finding(m.group(1) + "/free-running", m.group(2) + "  [free-running pass, scenario %s]" % r["params"],
                             dict(harness="h_thr.tsan", params=r["params"], build="tsan", replay_cmd=r["cmd"]))
@@ -227,6 +240,65 @@ def run_tsan(chk, tier, jobs, deadline_s):
     return total_reps
 
 
+def free_exe(variant):
+    if variant == "tsan":
+        return build.build_harness("h_thr", ["harness/h_thr.c"], variant="tsan", wraps=FREE_WRAPS,
+                                   extra_defs=["-DH_THR_TSAN=1"], cares_stub=False)
+    return build.build_harness("h_thr_free", ["harness/h_thr.c"], variant=variant, wraps=FREE_WRAPS,
+                               extra_defs=["-DH_THR_TSAN=1"], cares_stub=False)
+
+
+def run_stress(chk, tier):
+    """free-running complement aimed at the socket-id allocator (lost updates between atomic accesses)"""
+    q = tier == "quick"
+    per = []
+    sockets = 0
+    env = dict(os.environ)
+    env["TSAN_OPTIONS"] = TSAN_OPTS
+    for variant, n, k, rq, rt in STRESS:
+        exe = free_exe(variant)
+        arg = "%d,%d,%d" % (n, k, rq if q else rt)
+        cmd = [exe, "--stress", arg]
+        t0 = time.time()
+        try:
+            r = subprocess.run(cmd, capture_output=True, env=env, timeout=300)
+            rc, out, err = r.returncode, r.stdout.decode(errors="replace"), r.stderr.decode(errors="replace")
+        except subprocess.TimeoutExpired:
+            rc, out, err = -9, "", ""
+            chk.deadline_hit = True
+        m = re.search(r"stress-pass threads=(\d+) per_round=(\d+) rounds=(\d+) sockets=(\d+) duplicate_ids=(\d+) "
+                      r"harness_failures=(\d+)", out)
+        e = dict(build=variant, threads=n, sockets_per_round=k, rounds=rq if q else rt, rc=rc,
+                 wall_s=round(time.time() - t0, 2), completed=bool(m))
+        rcmd = "%s --stress %s" % (exe, arg)
+        if m:
+            e["socket_ids_recorded"] = int(m.group(4))
+            e["duplicate_ids"] = int(m.group(5))
+            sockets += int(m.group(4))
+        for v in re.finditer(r"STRESS-VIOLATION (\S+): ([^\n]*)", err):
+            chk.finding(v.group(1), v.group(2) + "  [free-running stress %s, %s build]" % (arg, variant),
+                        dict(harness=os.path.basename(exe), params="--stress " + arg, build=variant, replay_cmd=rcmd,
+                             note="free-running stress: sampling, the duplicate appears with high probability, "
+                                  "not deterministically"))
+        for v in re.finditer(r"HARNESS-VIOLATION (\S+): ([^\n]*)", err):
+            chk.finding(v.group(1) + "/free-running", v.group(2), dict(harness=os.path.basename(exe),
+                                                                       params="--stress " + arg, replay_cmd=rcmd))
+        for sig, text, is_xcm, harness_only in (parse_tsan(err, build.REPO) if variant == "tsan" else []):
+            if is_xcm:
+                chk.finding(sig, "ThreadSanitizer report in the socket-id stress:\n" + text[:1800],
+                            dict(harness=os.path.basename(exe), params="--stress " + arg, build=variant, replay_cmd=rcmd))
+            elif harness_only:
+                chk.broke("socket-id stress: ThreadSanitizer report inside the harness: %s" % text[:600])
+        if not m and rc != -9:
+            chk.finding("C15/socket-id/stress-crashed/free-running", "the socket-id stress died (rc %d): %s" %
+                        (rc, err[-1200:]), dict(harness=os.path.basename(exe), replay_cmd=rcmd))
+        per.append(e)
+    chk.add_cov(socket_id_stress_complement=dict(
+        role="complement to the schedule enumeration (sampling, free-running, NOT exhaustive, not the deciding step)",
+        oracle="every id handed out by xcm_tp_socket_create during the run is distinct (unique per process)",
+        runs=per, socket_ids_recorded=sockets))
+
+
 def run(chk, tier, jobs, deadline):
     chk.assumptions += ASSUME
     check_pki(chk)
@@ -239,6 +311,7 @@ def run(chk, tier, jobs, deadline):
         cfgs.append((params,) + tuple(c[1:]))
     # the complement first (short, bounded), then the enumeration with the remaining time
     run_tsan(chk, tier, jobs, dl * 0.2)
+    run_stress(chk, tier)
     left = dl - (time.time() - t0)
     msgfamily.run_configs(chk, "h_thr", cfgs, PREFIXES, jobs, max(30, left),
                           extra_build=dict(extra_wraps=EXTRA_WRAPS),
@@ -254,8 +327,10 @@ def run(chk, tier, jobs, deadline):
 
 
 def prepare_replay(art):
-    if art.get("build") == "tsan":
-        build.build_harness("h_thr", ["harness/h_thr.c"], variant="tsan", wraps=[],
+    if str(art.get("harness", "")).startswith("h_thr_free"):
+        free_exe(art.get("build", "plain"))
+    elif art.get("build") == "tsan":
+        build.build_harness("h_thr", ["harness/h_thr.c"], variant="tsan", wraps=FREE_WRAPS,
                             extra_defs=["-DH_THR_TSAN=1"], cares_stub=False)
     else:
         harnesses.build_explorer_harness("h_thr", variant=art.get("build", "plain"), extra_wraps=EXTRA_WRAPS)
